@@ -20,12 +20,22 @@ fn h<T: Hash>(t: &T) -> u64 {
     s.finish()
 }
 
+/// the serialised bytes, or a marker when the library refuses to serialise the value: the statement compares a copy
+/// with its original (both are then refused alike), it does not promise that every value can be serialised
+fn ser_or_refused(p: &Packet, compressed: bool) -> Result<Vec<u8>, Fail> {
+    match if compressed { ser_compressed(p) } else { ser_plain(p) } {
+        Ok(b) => Ok(b),
+        Err(f) if f.sig.starts_with("ser:") => Ok(b"\0refused-by-the-library".to_vec()),
+        Err(f) => Err(f),
+    }
+}
+
 fn wire_of_record(r: &ResourceRecord, compressed: bool) -> Result<Vec<u8>, Fail> {
     let mut p = Packet::new_reply(1);
     p.answers.push(r.clone());
     // written twice so that the compressed form contains pointers
     p.additional_records.push(r.clone());
-    if compressed { ser_compressed(&p) } else { ser_plain(&p) }
+    if compressed { ser_or_refused(&p, true) } else { ser_or_refused(&p, false) }
 }
 
 /// `copy` = true (b is a clone / owned copy of a): they must be equal, hash equally, observe equally and serialise to the
@@ -109,8 +119,8 @@ fn check_copies(s: &gen::Sharing, case: &mut Case) -> Result<(), Fail> {
         None
     };
     let base: &Packet = built_opt.as_ref().or(from_wire.as_ref()).unwrap();
-    let u = ser_plain(base)?;
-    let c = ser_compressed(base)?;
+    let u = ser_or_refused(base, false)?;
+    let c = ser_or_refused(base, true)?;
     // values borrowed from two different receive buffers
     // (whether the library reads its own output back is C02's / C03's business: no claim here if it does not)
     let (Ok(pu), Ok(pc)) = (parse(&u)?, parse(&c)?) else {
@@ -119,12 +129,12 @@ fn check_copies(s: &gen::Sharing, case: &mut Case) -> Result<(), Fail> {
     };
     for (name, p) in [("built", base), ("parsed-plain", &pu), ("parsed-compressed", &pc)] {
         // clone and owned rebuild serialise like the value they were made from
-        let (u, c) = (ser_plain(p)?, ser_compressed(p)?);
+        let (u, c) = (ser_or_refused(p, false)?, ser_or_refused(p, true)?);
         let cl = lib("Packet::clone", || p.clone())?;
-        ensure!(ser_plain(&cl)? == u && ser_compressed(&cl)? == c, "c16:clone-bytes", "{}: clone of the packet serialises differently", name);
+        ensure!(ser_or_refused(&cl, false)? == u && ser_or_refused(&cl, true)? == c, "c16:clone-bytes", "{}: clone of the packet serialises differently", name);
         let ow = lib("into_owned", || rebuild_owned(p))?;
-        ensure!(ser_plain(&ow)? == u, "c16:owned-bytes", "{}: packet rebuilt from owned parts serialises differently (plain)", name);
-        ensure!(ser_compressed(&ow)? == c, "c16:owned-bytes", "{}: packet rebuilt from owned parts serialises differently (compressed)", name);
+        ensure!(ser_or_refused(&ow, false)? == u, "c16:owned-bytes", "{}: packet rebuilt from owned parts serialises differently (plain)", name);
+        ensure!(ser_or_refused(&ow, true)? == c, "c16:owned-bytes", "{}: packet rebuilt from owned parts serialises differently (compressed)", name);
         ensure!(observe(&ow) == observe(p), "c16:owned-observation", "{}: {}", name, diff(&observe(p), &observe(&ow)));
         for q in &p.questions {
             let o = lib("Question::into_owned", || q.clone().into_owned())?;
